@@ -17,6 +17,7 @@ type Env struct {
 	sub    map[ssa.Value]*Val
 	header *ssa.BasicBlock
 	noLocals bool
+	foreign  bool // the clause belongs to ANOTHER function (a callee's postcondition assumed at a call site): builtins that name call sites are meaningless here
 	inOld    bool
 	asGoal   bool // the clause is being proved (not assumed): existentials may use their witness hints
 	wantCur  bool
@@ -485,6 +486,9 @@ func (v *Env) eval(x Expr) *Val {
 			}
 			return &Val{typ: tBool, c: []string{e.mapHas(v.st, mi, m.c[0], k.c[0])}}
 		case "visited":
+			if v.foreign {
+				panic("contract: visited() of another function")
+			}
 			for _, ri := range e.ranges {
 				return &Val{typ: visitedMarker{tBool}, c: []string{e.visited(v.st, ri)}}
 			}
@@ -502,6 +506,9 @@ func (v *Env) eval(x Expr) *Val {
 		case "Dir":
 			return v.e.ufTerm("path/filepath.Dir", []*Val{v.eval(x.Args[0])}, types.Typ[types.String])
 		case "resultof":
+			if v.foreign {
+				panic("contract: resultof() of another function")
+			}
 			ts, ok := x.Args[0].(*EStr)
 			if !ok {
 				panic("contract: resultof(\"callee#n\")")
@@ -617,6 +624,9 @@ func (v *Env) eval(x Expr) *Val {
 			first := sel(e.arr(v.st, "C|string|", "Str"), app("elem", val.c[0], val.c[1]))
 			return &Val{typ: types.Typ[types.String], c: []string{ite(and(has, app(">", val.c[2], "0")), first, "str!empty")}}
 		case "valueat":
+			if v.foreign {
+				panic("contract: valueat() of another function")
+			}
 			// valueat("callee#n", x): the value source variable x had at that call site
 			ts, ok := x.Args[0].(*EStr)
 			if !ok {
@@ -648,11 +658,33 @@ func (v *Env) eval(x Expr) *Val {
 				alts = append(alts, fmt.Sprintf("(and ((_ is obj) %s) (> (oid %s) |alloc!0|))", t, t))
 			}
 			return &Val{typ: tBool, c: []string{or(alts...)}}
+		case "iterfresh":
+			// iterfresh(x, N): the object x designates was allocated by this function during the CURRENT iteration of loop N
+			if v.foreign {
+				panic("contract: iterfresh() of another function")
+			}
+			a := v.eval(x.Args[0])
+			nn, ok := x.Args[1].(*ENum)
+			if !ok {
+				panic("contract: iterfresh(x, loopOrdinal)")
+			}
+			wm, ok := e.loopWM[int(nn.V)]
+			if !ok {
+				panic("contract: iterfresh: loop head not seen yet")
+			}
+			r := a.c[0]
+			return &Val{typ: tBool, c: []string{fmt.Sprintf("(and ((_ is obj) %s) (> (oid %s) %s) (< (oid %s) (+ |alloc!0| 1000000000)))", r, r, wm, r)}}
 		case "cur":
+			if v.foreign {
+				panic("contract: cur() of another function")
+			}
 			c := *v
 			c.wantCur = true
 			return c.eval(x.Args[0])
 		case "first":
+			if v.foreign {
+				panic("contract: first() of another function")
+			}
 			id, ok := x.Args[0].(*EIdent)
 			if !ok {
 				panic("contract: first(name)")
@@ -683,7 +715,25 @@ func (v *Env) eval(x Expr) *Val {
 				panic("contract: unknown type " + ts.S)
 			}
 			return &Val{typ: tBool, c: []string{eq(a.c[0], e.typeTag(t))}}
+		case "thisiter":
+			if v.foreign {
+				panic("contract: thisiter() of another function")
+			}
+			ts, ok := x.Args[0].(*EStr)
+			if !ok {
+				panic("contract: thisiter(\"callee#n\")")
+			}
+			if _, ok := e.iterSites[ts.S]; !ok {
+				panic("contract: thisiter() is only meaningful in a step clause of the loop that contains the site")
+			}
+			if t, ok := v.st.m["G|iter|"+ts.S]; ok {
+				return &Val{typ: tBool, c: []string{t}}
+			}
+			return &Val{typ: tBool, c: []string{"false"}}
 		case "reached":
+			if v.foreign {
+				panic("contract: reached() of another function")
+			}
 			ts, ok := x.Args[0].(*EStr)
 			if !ok {
 				panic("contract: reached(\"callee#n\")")
